@@ -25,9 +25,12 @@ theorem N3_DS_DC__DS_DEGL (hc : c * c = 2) (h2 : (2:K) ≠ 0)
     (D : Nat → Nat → K) (F0 F : M3 K) (L : M3 K) (s : Nat → K)  :
     upper (lamS F (M3.ofMandel c [s 0, s 1, s 2, s 3, s 4, s 5]) L (M3.ofMandel c (act (Gen.N3_DS_DC__DS_DEGL_r c c3 fn D (tensv F0) (tensv F) s) (M3.mandel3 c (dC F L)))))
       = upper (lamS F (M3.ofMandel c [s 0, s 1, s 2, s 3, s 4, s 5]) L (M3.ofMandel c (act (rowsOf D i6 i6) (M3.mandel3 c (dE F L))))) := by
-  have hc0 : c ≠ 0 := c_ne_zero hc h2
-  obtain ⟨f00,f01,f02,f10,f11,f12,f20,f21,f22⟩ := F
-  obtain ⟨l00,l01,l02,l10,l11,l12,l20,l21,l22⟩ := L
-  c23_rat0 hc
+  have key : (act (Gen.N3_DS_DC__DS_DEGL_r c c3 fn D (tensv F0) (tensv F) s) (M3.mandel3 c (dC F L)))
+      = (act (rowsOf D i6 i6) (M3.mandel3 c (dE F L))) := by
+    have hc0 : c ≠ 0 := c_ne_zero hc h2
+    obtain ⟨f00,f01,f02,f10,f11,f12,f20,f21,f22⟩ := F
+    obtain ⟨l00,l01,l02,l10,l11,l12,l20,l21,l22⟩ := L
+    c23_rat0 hc
+  rw [key]
 
 end TfelVerif.C23.PropsN3_DS_DC__DS_DEGL
